@@ -27,6 +27,7 @@ ASSUMPTIONS = common.BASE_ASSUMPTIONS + [
 ]
 REAL_VS_STUB = common.REAL_VS_STUB
 QUICK_RUNS = 18000
+O_SLICE_UNITS = 120
 EXPECTED_PROBES = {t: ["nested_wires", "filtered_frame_contains_foreign_preamble", "all_accepted_wires", "corrupted_wires", "socket_runs"] for t in ("quick", "thorough")}
 
 
